@@ -147,6 +147,8 @@ func init() {
 			c.ruleOptionOverride("R-FEATURE-FIELDS")
 			c.ruleDescPresenceStore("R-DESC-PRESENCE-STORE", 6)
 			c.ruleRequiredNumbers("R-REQUIRED-NUMBERS", 2)
+			c.ruleOptionPromotion("R-OPTION-PROMOTION", 5)
+			c.ruleFeatureInherit("R-FEATURE-INHERIT", 12)
 		},
 	})
 }
